@@ -2635,3 +2635,170 @@ B("C06-clear-tree-after-releasing-journal-lock", "C06", "C06:R-C06.6:keyspace::K
 
         self.supervisor.snapshot_tracker.publish(seqno);
 """)
+
+# ======================================================================== reverted fixes 10, 11, 12
+B("F10-C11-active-replay-journal-seqnos-not-restored", "C11", "C11:R-C11.1:db::Database::recover:journal-seqnos-restored", DB,
+  """                    db.supervisor.seqno.fetch_max(batch.seqno + 1);
+
+""", "")
+B("F10-C11-sealed-replay-journal-seqnos-not-restored", "C11", "C11:R-C11.2:recovery::recover_sealed_memtables:journal-seqnos-restored", REC,
+  """            db.supervisor.seqno.fetch_max(batch.seqno + 1);
+
+""", "")
+B("F11-C04-active-replay-reapplies-persisted-items", "C04", "C04:R-C04.5:db::Database::recover:replay-skips-records-already-persisted", DB,
+  """                        if persisted_seqnos.covers(keyspace, batch.seqno) {
+                            continue;
+                        }
+
+                        match item.value_type {""",
+  """                        match item.value_type {""")
+B("F11-C04-active-replay-reexecutes-clear", "C04", "C04:R-C04.5:db::Database::recover:replayed-clear-spares-newer-tables", DB,
+  """                        if persisted_seqnos.covers(keyspace, batch.seqno) {
+                            continue;
+                        }
+
+                        keyspace.tree.clear().ok();""",
+  """                        keyspace.tree.clear().ok();""")
+B("F11-C04-sealed-replay-reapplies-persisted-items", "C04", "C04:R-C04.5:recovery::recover_sealed_memtables:replay-skips-records-already-persisted", REC,
+  """                if persisted_seqnos.covers(handle, batch.seqno) {
+                    continue;
+                }
+
+                match item.value_type {""",
+  """                match item.value_type {""")
+B("F11-C04-sealed-replay-reexecutes-clear", "C04", "C04:R-C04.5:recovery::recover_sealed_memtables:replayed-clear-spares-newer-tables", REC,
+  """                if persisted_seqnos.covers(handle, batch.seqno) {
+                    continue;
+                }
+
+                handle.tree.clear()""",
+  """                handle.tree.clear()""")
+B("F12-C11-meta-keyspace-seqnos-not-restored", "C11", "C11:R-C11.1:db::Database::recover:meta-keyspace-seqnos-restored", DB,
+  """        seqno.fetch_max(
+            meta_tree
+                .get_highest_seqno()
+                .map(|x| x + 1)
+                .unwrap_or_default(),
+        );
+""", "")
+B("C11-meta-restore-without-plus-one", "C11", "C11:R-C11.1:db::Database::recover:meta-keyspace-seqnos-restored", DB,
+  """                .get_highest_seqno()
+                .map(|x| x + 1)
+                .unwrap_or_default(),
+        );
+
+        let keyspaces = Arc::new(RwLock::default());""",
+  """                .get_highest_seqno()
+                .unwrap_or_default(),
+        );
+
+        let keyspaces = Arc::new(RwLock::default());""")
+E("EQ-replay-guard-inline", DB,
+  """                        if persisted_seqnos.covers(keyspace, batch.seqno) {
+                            continue;
+                        }
+
+                        match item.value_type {""",
+  """                        let already_in_tables = persisted_seqnos.covers(keyspace, batch.seqno);
+                        if already_in_tables {
+                            continue;
+                        }
+
+                        match item.value_type {""", props=["C04", "C18", "C11", "C12", "C03"])
+B("C04-replay-cache-not-invalidated-by-clear", "C04", "C04:R-C04.5:db::Database::recover:cached-persisted-seqno-forgotten-after-replayed-clear", DB,
+  """                        keyspace.tree.clear().ok();
+
+                        persisted_seqnos.forget(keyspace);
+""",
+  """                        keyspace.tree.clear().ok();
+""")
+B("C04-sealed-replay-cache-not-invalidated-by-clear", "C04", "C04:R-C04.5:recovery::recover_sealed_memtables:cached-persisted-seqno-forgotten-after-replayed-clear", REC,
+  """
+                persisted_seqnos.forget(handle);
+""", "")
+
+# ======================================================================== equivalent refactors against the round-3 rules
+E("EQ-journal-persist-result-local", "src/journal/mod.rs",
+  """        let mut journal_writer = self.get_writer()?;
+        journal_writer.persist(mode).map_err(Into::into)""",
+  """        let mut journal_writer = self.get_writer()?;
+        let res = journal_writer.persist(mode);
+        drop(journal_writer);
+        match res {
+            Ok(()) => Ok(()),
+            Err(e) => Err(e.into()),
+        }""", props=["C02", "C09", "C13", "C14"])
+E("EQ-rotate-flush-task-local", KS,
+  """        self.supervisor.flush_manager.enqueue(Arc::new(FlushTask {
+            keyspace: self.clone(),
+        }));
+
+        self.worker_messager.send(WorkerMessage::Flush).ok();""",
+  """        let task = Arc::new(FlushTask {
+            keyspace: self.clone(),
+        });
+        self.supervisor.flush_manager.enqueue(task);
+
+        let _ = self.worker_messager.send(WorkerMessage::Flush);""", props=["C14", "C10", "C02", "C04"])
+E("EQ-batch-empty-check-on-data", BATCH,
+  """        if self.is_empty() {
+            return Ok(());
+        }
+
+        log::trace!("batch: Acquiring journal writer");""",
+  """        if self.data.is_empty() {
+            return Ok(());
+        }
+
+        log::trace!("batch: Acquiring journal writer");""", props=["C01", "C02", "C03", "C09", "C13"])
+E("EQ-keyspace-open-guard-renamed", DB,
+  """        let keyspaces = self.supervisor.keyspaces.write().expect("lock is poisoned");
+
+        Ok(if let Some(keyspace) = keyspaces.get(name) {
+            keyspace.clone()
+        } else {""",
+  """        let map = self.supervisor.keyspaces.write().expect("lock is poisoned");
+        let keyspaces = map;
+
+        let existing = keyspaces.get(name).cloned();
+
+        Ok(if let Some(keyspace) = existing {
+            keyspace
+        } else {""", props=["C12", "C16", "C18", "C14"])
+B("S4-C12-lookup-under-read-lock", "C12", "C12:R-C12.7:db::Database::keyspace", DB,
+  """        let keyspaces = self.supervisor.keyspaces.write().expect("lock is poisoned");
+
+        Ok(if let Some(keyspace) = keyspaces.get(name) {
+            keyspace.clone()
+        } else {""",
+  """        let existing = self.supervisor.keyspaces.read().expect("lock is poisoned").get(name).cloned();
+
+        Ok(if let Some(keyspace) = existing {
+            keyspace
+        } else {
+            let keyspaces = self.supervisor.keyspaces.write().expect("lock is poisoned");
+""")
+B("S4-C15-decoder-rejects-large-values", "C15", "C15:R-C15.6:journal::entry::Entry::decode_from:no-decoder-only-bounds", "src/journal/entry.rs",
+  """                let on_disk_value_len = reader.read_u32::<LittleEndian>()?;
+""",
+  """                let on_disk_value_len = reader.read_u32::<LittleEndian>()?;
+
+                if u64::from(on_disk_value_len) > 64 * 1_024 * 1_024 {
+                    return Err(crate::Error::JournalRecovery(
+                        crate::JournalRecoveryError::InsufficientLength,
+                    ));
+                }
+""")
+B("S4-C14-flush-task-only-if-queue-empty", "C14", "C14:R-C14.5:keyspace::Keyspace::inner_rotate_memtable", KS,
+  """        self.supervisor.flush_manager.enqueue(Arc::new(FlushTask {
+            keyspace: self.clone(),
+        }));
+
+        self.worker_messager.send(WorkerMessage::Flush).ok();""",
+  """        if self.supervisor.flush_manager.len() == 0 {
+            self.supervisor.flush_manager.enqueue(Arc::new(FlushTask {
+                keyspace: self.clone(),
+            }));
+
+            self.worker_messager.send(WorkerMessage::Flush).ok();
+        }""")
